@@ -17,7 +17,7 @@ run_demo() {
   rc=0
   for f in $SRC/demo/seed*_*.rs; do
     t=$(basename $f .rs)
-    FEAT=$(grep -o -m1 -- "--features [a-z_,-]*\|--no-default-features" $SRC/demo/RUN.md 2>/dev/null)
+    if [ -n "${VERIFY_FEAT+x}" ]; then FEAT="$VERIFY_FEAT"; else FEAT=$(grep -o -m1 -- "--features [a-z_,-]*\|--no-default-features" $SRC/demo/RUN.md 2>/dev/null); fi
     cargo test --offline -p ts-rs $FEAT --test $t >> $WT/demo.log 2>&1 || rc=1
   done
   return $rc
